@@ -366,7 +366,13 @@ func filterLatest(files []string, n int) []string {
 }
 
 func timestamp(file string) string {
-	return rTimestamp.FindString(file)
+	// The DAG name precedes the timestamp in the file name and may itself look
+	// like a timestamp, so take the last match in the base name.
+	matches := rTimestamp.FindAllString(filepath.Base(file), -1)
+	if len(matches) == 0 {
+		return ""
+	}
+	return matches[len(matches)-1]
 }
 
 func readLineFrom(f *os.File, offset int64) ([]byte, error) {
